@@ -259,7 +259,7 @@ impl Property for C05 {
     }
     fn describe(&self) -> Describe {
         Describe {
-            rule: "case = generated authoring program (text with delimiters and non-ASCII, images, annotations, form fields, outline, info strings) x strength (RC4-40, RC4-128, AES-128, AES-256) x user/owner passwords (empty, ASCII, non-ASCII, > 32 bytes, with delimiters, equal or differing) x random permission bits x writer configuration (table / xref stream / object streams x compression x version) x entropy mode (seeded, all-zero, all-0xFF) with the clock advancing x source plan (fault-free | short reads) x reader preset. The view (page count, boxes, rotation, decoded content bytes, extracted text, images, annotation contents, info strings, field values, outline titles) of the unencrypted fault-free write+read is the reference; the encrypted file must be recognised as encrypted, expose nothing while locked, refuse a wrong password, and give the identical view after unlocking with the user password and, separately, the owner password; permission flags must read back as written. non-trivial = program that serialised encrypted; distinct = digest of (reference view, strength, configuration).".into(),
+            rule: "case = generated authoring program (text with delimiters and non-ASCII, images, annotations, form fields, outline, info strings) x strength (RC4-40, RC4-128, AES-128, AES-256) x user/owner passwords (empty, ASCII, non-ASCII, lengths around the 32- and 127-byte boundaries, with delimiters, equal or differing) x random permission bits x writer configuration (table / xref stream / object streams x compression x version) x entropy mode (seeded, all-zero, all-0xFF) with the clock advancing x source plan (fault-free | short reads) x reader preset. The view (page count, boxes, rotation, decoded content bytes, extracted text, images, annotation contents, info strings, field values, outline titles) of the unencrypted fault-free write+read is the reference; the encrypted file must be recognised as encrypted, expose nothing while locked, refuse a wrong password, and give the identical view after unlocking with the user password and, separately, the owner password; permission flags must read back as written. non-trivial = program that serialised encrypted; distinct = digest of (reference view, strength, configuration).".into(),
             assumptions: vec![
                 "the reference is the library's own reading of the unencrypted document, so the check demands no more than the library delivers without encryption".into(),
                 "'ciphertext silently returned' is detected as a view that differs from the reference (unique plaintext cannot equal ciphertext) or as is_encrypted() being false".into(),
